@@ -1729,11 +1729,62 @@ func (w *lw) checkDispatch(locName string, event map[string]interface{}, p h.Pro
 	}
 	dispatched = want
 	got := h.ObsDispatch(fr)
+	ancNames, _ := w.model.Ancestors(locName)
 	skip := func(id string) bool {
-		return w.uncertainAnywhere(locName, id, true) || w.model.IsUncertain(locName, h.PropId(id, "disabled"))
+		if w.uncertainAnywhere(locName, id, true) || w.model.IsUncertain(locName, h.PropId(id, "disabled")) {
+			return true
+		}
+		for _, n := range ancNames {
+			if w.isGhost(n, id, nil) {
+				return true // a rule whose add (without an id) failed half-way
+			}
+		}
+		return false
 	}
 	if d := h.DiffSets(got, want, skip); d != "" {
 		w.fail("dispatch-mismatch", "event:"+diffKind(d)+":"+w.whenShapes(locName, d), "ProcessEvent(%s, %s): %s", locName, h.Canon(event), d)
+	}
+	// An id the model cannot speak for (say, after an operation that a storage
+	// failure cut short) is still one thing or the other to the engine itself:
+	// what GetFact hands out as a live, enabled event rule of this location is
+	// dispatched when it matches, and what GetFact does not know is not.
+	if _, isTrigger := event["trigger!"]; !isTrigger {
+		for _, id := range w.ids(locName) {
+			if !skip(id) || w.model.IsUncertain(locName, h.PropId(id, "disabled")) {
+				continue
+			}
+			if it := w.model.Loc(locName).Items[h.PropId(id, "disabled")]; it != nil {
+				continue // (a flag the model knows of: the rule may be disabled)
+			}
+			var body core.Map
+			var gerr error
+			w.call("GetFact", func() { body, gerr = loc.GetFact(h.NewCtx(p), id) })
+			if w.obsFaulted() {
+				break
+			}
+			_, dispatched := got[id]
+			if gerr != nil {
+				continue // (it may be an ancestor's)
+			}
+			rule, _ := body["rule"].(map[string]interface{})
+			if rule == nil {
+				continue
+			}
+			if _, sched := rule["schedule"]; sched {
+				continue
+			}
+			pat, ok := h.WhenPattern(rule)
+			if !ok {
+				continue
+			}
+			bss, merr2 := h.MatchBindings(pat, event)
+			if merr2 != nil {
+				continue
+			}
+			if len(bss) > 0 && !dispatched {
+				w.fail("dispatch-inconsistent-with-get", "event:stored-but-skipped", "ProcessEvent(%s, %s) did not dispatch %s although GetFact returns it as a live rule whose `when` %s matches", locName, h.Canon(event), id, h.Canon(pat))
+			}
+		}
 	}
 	if w.prof.Values {
 		// every dispatched rule's constant action value appears once per binding
